@@ -23,7 +23,7 @@ Proof. induction n; destruct l; cbn; auto. Qed.
 
 Definition same_objs (w w' : world) : Prop :=
   w_cas w' = w_cas w /\ w_decos w' = w_decos w /\ w_dicts w' = w_dicts w /\
-  w_lists w' = w_lists w /\ w_metas w' = w_metas w.
+  w_lists w' = w_lists w /\ w_metas w' = w_metas w /\ w_convs w' = w_convs w.
 
 Definition frame (w w' : world) : Prop :=
   same_objs w w' /\ w_defs w' = w_defs w /\ (w_counter w <= w_counter w')%Z.
@@ -33,7 +33,7 @@ Proof. repeat split; lia. Qed.
 
 Lemma frame_trans a b c : frame a b -> frame b c -> frame a c.
 Proof.
-  unfold frame, same_objs. intros [(A1&A2&A3&A4&A5) [A6 A7]] [(B1&B2&B3&B4&B5) [B6 B7]].
+  unfold frame, same_objs. intros [(A1&A2&A3&A4&A5&A6x) [A6 A7]] [(B1&B2&B3&B4&B5&B6x) [B6 B7]].
   repeat split; try congruence; lia.
 Qed.
 
@@ -199,14 +199,14 @@ Proof.
     pose proof (decorator_state_invariant_l w1 (nth d (w_decos w1) (DInvalid EOther)) cls) as HD.
     pose proof (apply_deco_frame w1 (nth d (w_decos w1) (DInvalid EOther)) cls) as H2.
     destruct (apply_deco w1 _ cls) as [[d' w2] oc]. cbn in *. subst d'.
-    destruct H1 as [(A1&A2&A3&A4&A5) [A6 A7]], H2 as [(B1&B2&B3&B4&B5) [B6 B7]].
+    destruct H1 as [(A1&A2&A3&A4&A5&A6x) [A6 A7]], H2 as [(B1&B2&B3&B4&B5&B6x) [B6 B7]].
     split; [|split].
     + unfold same_objs; cbn. rewrite B2, set_nth_same. repeat split; congruence.
     + lia.
     + exists oc. congruence.
   - pose proof (make_class_frame w m) as H.
     destruct (make_class w m) as [w1 oc]. cbn in *.
-    destruct H as [(A1&A2&A3&A4&A5) [A6 A7]].
+    destruct H as [(A1&A2&A3&A4&A5&A6x) [A6 A7]].
     split; [|split]; [repeat split; assumption | lia | exists oc; congruence].
 Qed.
 
@@ -270,7 +270,7 @@ Definition ckeys (l1 l2 : list counting_attr) : list (Z * Z) :=
 
 Definition objs_sim (w1 w2 : world) : Prop :=
   w_decos w1 = w_decos w2 /\ w_dicts w1 = w_dicts w2 /\ w_lists w1 = w_lists w2 /\
-  w_metas w1 = w_metas w2 /\ Forall2 ca_sim (w_cas w1) (w_cas w2).
+  w_metas w1 = w_metas w2 /\ Forall2 ca_sim (w_cas w1) (w_cas w2) /\ w_convs w1 = w_convs w2.
 
 Definition bounded (w : world) : Prop :=
   (0 <= w_counter w)%Z /\ Forall (fun c => (0 < ca_counter c <= w_counter w)%Z) (w_cas w).
@@ -346,10 +346,15 @@ Qed.
 
 (** ** One definition in two related worlds gives the same outcome *)
 
-Lemma resolve_seq_sim w1 w2 a : w_lists w1 = w_lists w2 -> resolve_seq w1 a = resolve_seq w2 a.
-Proof. intros H. destruct a; cbn; congruence. Qed.
+Definition env_eq (w1 w2 : world) : Prop := w_lists w1 = w_lists w2 /\ w_convs w1 = w_convs w2.
 
-Lemma attrib_sim w1 w2 a : w_lists w1 = w_lists w2 ->
+Lemma resolve_seq_sim w1 w2 a : env_eq w1 w2 -> resolve_seq w1 a = resolve_seq w2 a.
+Proof. intros [H H']. destruct a; cbn; try congruence. now rewrite H'. Qed.
+
+Lemma objs_sim_env w1 w2 : objs_sim w1 w2 -> env_eq w1 w2.
+Proof. intros (_&_&H&_&_&H'). split; assumption. Qed.
+
+Lemma attrib_sim w1 w2 a : env_eq w1 w2 ->
   ca_sim (snd (attrib w1 a)) (snd (attrib w2 a)).
 Proof.
   intros H. unfold attrib, ca_sim, ca_erase; cbn.
@@ -366,8 +371,8 @@ Lemma objs_sim_frame w1 w2 w1' w2' :
   objs_sim w1 w2 -> frame w1 w1' -> frame w2 w2' -> objs_sim w1' w2'.
 Proof.
   unfold objs_sim, frame, same_objs.
-  intros (A1&A2&A3&A4&A5) [(B1&B2&B3&B4&B5) _] [(C1&C2&C3&C4&C5) _].
-  rewrite B1, B2, B3, B4, B5, C1, C2, C3, C4, C5. auto.
+  intros (A1&A2&A3&A4&A5&A6x) [(B1&B2&B3&B4&B5&B6x) _] [(C1&C2&C3&C4&C5&C6x) _].
+  rewrite B1, B2, B3, B4, B5, B6x, C1, C2, C3, C4, C5, C6x. repeat split; assumption.
 Qed.
 
 Definition cd_rel (K : list (Z * Z)) (c1 c2 : Z) (e1 e2 : string * cdval) : Prop :=
@@ -385,7 +390,7 @@ Lemma exec_fields_rel K c1 c2 : forall fs k w1 w2,
 Proof.
   induction fs as [|f r IH]; intros k w1 w2 Ho HK E1 E2; cbn; [constructor|].
   destruct (fd_entry f) as [a|id| |].
-  - pose proof (attrib_sim w1 w2 a (proj1 (proj2 (proj2 Ho)))) as Hs.
+  - pose proof (attrib_sim w1 w2 a (objs_sim_env w1 w2 Ho)) as Hs.
     pose proof (attrib_counter w1 a) as [Hc1 Hw1]. pose proof (attrib_counter w2 a) as [Hc2 Hw2].
     pose proof (attrib_frame w1 a) as F1. pose proof (attrib_frame w2 a) as F2.
     destruct (attrib w1 a) as [w1' x], (attrib w2 a) as [w2' y]. cbn in *.
@@ -400,7 +405,7 @@ Proof.
   - specialize (IH k w1 w2 Ho HK E1 E2).
     destruct (exec_fields w1 r) as [w1'' cd1], (exec_fields w2 r) as [w2'' cd2]. cbn in *.
     constructor; [|exact IH].
-    split; [reflexivity|]. cbn. destruct Ho as (_&_&_&_&Hc). apply cp_shared.
+    split; [reflexivity|]. cbn. destruct Ho as (_&_&_&_&Hc&_). apply cp_shared.
     + apply Forall2_nth; [apply ca_sim_refl | exact Hc].
     + subst K. apply nth_keys. exact Hc.
   - specialize (IH k w1 w2 Ho HK E1 E2).
@@ -454,7 +459,7 @@ Proof.
 Qed.
 
 Lemma walk_anns_rel K c1 c2 cd1 cd2 : Forall2 (cd_rel K c1 c2) cd1 cd2 ->
-  forall anns w1 w2, w_lists w1 = w_lists w2 ->
+  forall anns w1 w2, env_eq w1 w2 ->
   Forall2 na_sim (snd (walk_anns w1 cd1 anns)) (snd (walk_anns w2 cd2 anns)).
 Proof.
   intros Hcd. induction anns as [|[n cv] r IH]; intros w1 w2 Hl; cbn; [constructor|].
@@ -468,8 +473,8 @@ Proof.
       pose proof (attrib_sim w1 w2 x Hl) as Hs; pose proof (attrib_frame w1 x) as F1;
       pose proof (attrib_frame w2 x) as F2;
       destruct (attrib w1 x) as [w1' p], (attrib w2 x) as [w2' q] end. cbn in *.
-    assert (Hl' : w_lists w1' = w_lists w2').
-    { destruct F1 as [(_&_&_&Q1&_) _], F2 as [(_&_&_&Q2&_) _]. congruence. }
+    assert (Hl' : env_eq w1' w2').
+    { destruct Hl as [L1 L2], F1 as [(_&_&_&Q1&_&R1) _], F2 as [(_&_&_&Q2&_&R2) _]. split; congruence. }
     specialize (IH w1' w2' Hl').
     destruct (walk_anns w1' cd1 r), (walk_anns w2' cd2 r). cbn in *.
     constructor; [split; [reflexivity | exact Hs] | exact IH].
@@ -477,8 +482,8 @@ Proof.
       pose proof (attrib_sim w1 w2 x Hl) as Hs; pose proof (attrib_frame w1 x) as F1;
       pose proof (attrib_frame w2 x) as F2;
       destruct (attrib w1 x) as [w1' p], (attrib w2 x) as [w2' q] end. cbn in *.
-    assert (Hl' : w_lists w1' = w_lists w2').
-    { destruct F1 as [(_&_&_&Q1&_) _], F2 as [(_&_&_&Q2&_) _]. congruence. }
+    assert (Hl' : env_eq w1' w2').
+    { destruct Hl as [L1 L2], F1 as [(_&_&_&Q1&_&R1) _], F2 as [(_&_&_&Q2&_&R2) _]. split; congruence. }
     specialize (IH w1' w2' Hl').
     destruct (walk_anns w1' cd1 r), (walk_anns w2' cd2 r). cbn in *.
     constructor; [split; [reflexivity | exact Hs] | exact IH].
@@ -519,7 +524,7 @@ Section TransformRel.
   Proof.
     intros Ho Hmc (Hcd & Hann & Hf).
     unfold transform_attrs. unfold co_base. rewrite Hf, Hann.
-    destruct Ho as (Hdecos & Hdicts & Hlists & Hmetas & Hcas).
+    destruct Ho as (Hdecos & Hdicts & Hlists & Hmetas & Hcas & Hconvs).
     assert (Hd : forall t, deref_these w1 t = deref_these w2 t).
     { intros [id|d]; cbn; congruence. }
     destruct these as [t|].
@@ -528,7 +533,7 @@ Section TransformRel.
         [| apply Hmc; assumption | apply these_items_sim; assumption].
       destruct kw; match goal with |- context[order_ok ?x ?y] => destruct (order_ok x y) end; reflexivity.
     - destruct aa.
-      + pose proof (walk_anns_rel K c1 c2 _ _ Hcd (co_anns cls2) w1 w2 Hlists) as Hw.
+      + pose proof (walk_anns_rel K c1 c2 _ _ Hcd (co_anns cls2) w1 w2 (conj Hlists Hconvs)) as Hw.
         pose proof (walk_anns_frame (co_cd cls1) (co_anns cls2) w1) as F1.
         pose proof (walk_anns_frame (co_cd cls2) (co_anns cls2) w2) as F2.
         destruct (walk_anns w1 (co_cd cls1) (co_anns cls2)) as [w1' l1].
@@ -538,7 +543,7 @@ Section TransformRel.
         destruct (filter _ _); [|reflexivity]. cbv zeta.
         rewrite (map_from_ca_sim mc w1' w2' l1 l2); [| | exact Hw].
         { destruct kw; match goal with |- context[order_ok ?x ?y] => destruct (order_ok x y) end; reflexivity. }
-        apply Hmc. destruct F1 as [(_&_&_&_&Q1) _], F2 as [(_&_&_&_&Q2) _]. congruence.
+        apply Hmc. destruct F1 as [(_&_&_&_&Q1&_) _], F2 as [(_&_&_&_&Q2&_) _]. congruence.
       + cbv zeta.
         rewrite (map_from_ca_sim mc w1 w2 (sorted_by_counter (cas_of_cd (co_cd cls1)))
                    (sorted_by_counter (cas_of_cd (co_cd cls2)))); [| apply Hmc; assumption |].
@@ -707,10 +712,10 @@ Lemma sim_grow w1 w2 w1' w2' :
   sim w1 w2 -> same_objs w1 w1' -> same_objs w2 w2' ->
   (w_counter w1 <= w_counter w1')%Z -> (w_counter w2 <= w_counter w2')%Z -> sim w1' w2'.
 Proof.
-  intros [Ho Hord [N1 B1] [N2 B2]] (A1&A2&A3&A4&A5) (C1&C2&C3&C4&C5) L1 L2.
-  destruct Ho as (O1&O2&O3&O4&O5).
+  intros [Ho Hord [N1 B1] [N2 B2]] (A1&A2&A3&A4&A5&A6x) (C1&C2&C3&C4&C5&C6x) L1 L2.
+  destruct Ho as (O1&O2&O3&O4&O5&O6x).
   constructor.
-  - unfold objs_sim. rewrite A1, A2, A3, A4, A5, C1, C2, C3, C4, C5. auto.
+  - unfold objs_sim. rewrite A1, A2, A3, A4, A5, A6x, C1, C2, C3, C4, C5, C6x. repeat split; assumption.
   - now rewrite A1, C1.
   - split; [lia|]. rewrite A1. eapply Forall_impl; [|exact B1]. cbn. intros; lia.
   - split; [lia|]. rewrite C1. eapply Forall_impl; [|exact B2]. cbn. intros; lia.
@@ -775,17 +780,17 @@ Lemma sim_nondef w1 w2 o : is_def o = false -> sim w1 w2 ->
   sim (step w1 o) (step w2 o) /\ w_defs (step w1 o) = w_defs w1 /\ w_defs (step w2 o) = w_defs w2.
 Proof.
   intros Hd [Ho Hord [N1 B1] [N2 B2]].
-  pose proof Ho as (O1&O2&O3&O4&O5).
+  pose proof Ho as (O1&O2&O3&O4&O5&O6x).
   destruct o; try discriminate; cbn.
   - (* OAttrib *)
-    pose proof (attrib_sim w1 w2 a O3) as Hs.
+    pose proof (attrib_sim w1 w2 a (conj O3 O6x)) as Hs.
     pose proof (attrib_counter w1 a) as [Hc1 Hw1]. pose proof (attrib_counter w2 a) as [Hc2 Hw2].
-    pose proof (attrib_frame w1 a) as [(P1&P2&P3&P4&P5) [P6 _]].
-    pose proof (attrib_frame w2 a) as [(Q1&Q2&Q3&Q4&Q5) [Q6 _]].
+    pose proof (attrib_frame w1 a) as [(P1&P2&P3&P4&P5&P6x) [P6 _]].
+    pose proof (attrib_frame w2 a) as [(Q1&Q2&Q3&Q4&Q5&Q6x) [Q6 _]].
     destruct (attrib w1 a) as [w1' x], (attrib w2 a) as [w2' y]. cbn in *.
     split; [|split; assumption].
     constructor; cbn.
-    + unfold objs_sim; cbn. rewrite P1, P2, P3, P4, P5, Q1, Q2, Q3, Q4, Q5.
+    + unfold objs_sim; cbn. rewrite P1, P2, P3, P4, P5, P6x, Q1, Q2, Q3, Q4, Q5, Q6x.
       repeat split; try assumption. apply Forall2_app1; assumption.
     + rewrite P1, Q1. unfold ckeys. rewrite !map_app. cbn.
       rewrite combine_app1 by (rewrite !map_length; eapply Forall2_length; eauto).
@@ -821,6 +826,9 @@ Proof.
     unfold objs_sim; cbn. rewrite O2. repeat split; assumption.
   - split; [|split; reflexivity].
     constructor; cbn; try (split; assumption); [|assumption].
+    unfold objs_sim; cbn. rewrite O6x. repeat split; assumption.
+  - split; [|split; reflexivity].
+    constructor; cbn; try (split; assumption); [|assumption].
     unfold objs_sim; cbn. rewrite O3. repeat split; assumption.
   - (* OMetaSet *)
     rewrite O4. destruct (mem_str k (nth id (w_metas w2) [])).
@@ -849,7 +857,7 @@ Qed.
 
 Lemma nondef_defs w o : is_def o = false -> w_defs (step w o) = w_defs w.
 Proof.
-  destruct o as [a|a|c|l|ks|d|id s|id k|id s|id k v|id k|d b|m]; try discriminate; intros _; cbn;
+  destruct o as [a|a|c|l|ks|d|s ts tf|id s|id k|id s|id k v|id k|d b|m]; try discriminate; intros _; cbn;
     try reflexivity.
   destruct (mem_str _ _); reflexivity.
 Qed.
@@ -935,8 +943,8 @@ Lemma defs_only_objs : forall ops w, forallb is_def ops = true -> same_objs w (r
 Proof.
   induction ops as [|o r IH]; intros w H; cbn; [apply same_objs_refl|].
   cbn in H. apply andb_true_iff in H as [Ho Hr].
-  destruct (def_step_objs w o Ho) as ((A1&A2&A3&A4&A5) & _).
-  destruct (IH (step w o) Hr) as (B1&B2&B3&B4&B5). unfold run in *.
+  destruct (def_step_objs w o Ho) as ((A1&A2&A3&A4&A5&A6x) & _).
+  destruct (IH (step w o) Hr) as (B1&B2&B3&B4&B5&B6x). unfold run in *.
   repeat split; congruence.
 Qed.
 
@@ -1338,3 +1346,21 @@ Example counter_irrelevant_example :
   sort_by (fun e : string * Z => snd e) [("x", 11); ("y", 12); ("z", 40)]%Z
   = [("x", 11); ("y", 12); ("z", 40)]%Z.
 Proof. reflexivity. Qed.
+
+(** Definitions never write to an [attrs.Converter] instance (incl. its [_global_name] slot). *)
+Lemma converter_objects_untouched_l w o : is_def o = true -> w_convs (step w o) = w_convs w.
+Proof. intros H. destruct (def_step_objs w o H) as ((_&_&_&_&_&H1) & _). exact H1. Qed.
+
+(** A Converter instance shared by two classes on differently named fields: each class
+    converts each field with its own converter. *)
+Example shared_converter_example :
+  let fld n c := {| fd_name := n; fd_entry := EOwn (ib false c MANone); fd_ann := true; fd_cv := false |} in
+  let body fs := {| cb_fields := fs; cb_hash := false; cb_eq := false; cb_setattr := false;
+                    cb_init := false; cb_pre := false; cb_post := false; cb_base := obj_base |} in
+  let w := run w0 [ONewConv "c1" true true; ODecoDefine define_default;
+                   OApply 0 (body [fld "x" (SConv 0)]);
+                   OApply 0 (body [fld "x" (SOne "c2"); fld "y" (SConv 0)])] in
+  exists fa fb, fingerprints w = [FOk fa; FOk fb] /\
+    fp_initconv fb = Some [("x", Some ["c2"]); ("y", Some ["c1"])] /\
+    w_convs w = w_convs (run w0 [ONewConv "c1" true true]).
+Proof. vm_compute. do 2 eexists. repeat split; reflexivity. Qed.
